@@ -8,6 +8,9 @@ R2 pre-handshake state: no unwrap/expect of Peer.public_key / Peer.challenge_for
 R3 fallible peer-data functions are not unwrapped: no Result::unwrap/expect on the result of a workspace function
    that constructs an explicit Err (directly or through `?`)
 R4 no decoder with undischarged C10 obligations is reachable
+R5 indexing of peer-decoded structures: every `v[i]` / `v[a..b]` whose base is a field of a structure decoded from the wire
+   (Transaction, Slip, Hop, Block, GhostChainSync, handshake messages) in a handler-reachable body is covered by a dominating
+   length fact (C10's bounds engine: branch conditions, `let ok = a && b` flags, loop indices, helper postconditions)
 """
 from ..callgraph import CallGraph
 from ..expr import call_name, has_call, has_field, show, strip, trait_method, walk
@@ -51,6 +54,29 @@ R2_EXCEPTION_PRECONDITIONS = {
 R3_EXCEPTIONS = {
     (CORE + "consensus::block::Block::generate_consensus_values::{closure#0}", CORE + "consensus::block::Block::generate"):
         "the block is re-loaded from the node's own storage, where it was written after passing validation; not peer-chosen bytes",
+}
+
+
+PEER_ADTS = ("consensus::transaction::Transaction", "consensus::slip::Slip", "consensus::hop::Hop", "consensus::block::Block",
+             "msg::ghost_chain_sync::GhostChainSync", "msg::handshake::HandshakeResponse", "msg::handshake::HandshakeChallenge",
+             "msg::block_request::BlockchainRequest")
+# (body, Adt.field) -> why the index is in range although no dominating length test says so (confirmed by reading)
+R5_EXCEPTIONS = {
+    (CORE + "consensus::block::Block::generate_consensus_values::{closure#0}", "Transaction.from"):
+        "rebroadcast_tx is built two lines above by Transaction::create_rebroadcast_transaction, which always pushes one input",
+    (CORE + "consensus::block::Block::generate_consensus_values::{closure#0}", "Transaction.to"):
+        "rebroadcast_tx is built two lines above by Transaction::create_rebroadcast_transaction, which always pushes one output",
+    (CORE + "consensus::block::Block::generate_consensus_values::{closure#0}", "Block.transactions"):
+        "gt_index was recorded while enumerating this same vector a few lines above",
+    (CORE + "consensus::block::Block::validate::{closure#0}", "Block.transactions"):
+        "cv.gt_index / cv.ft_index were recorded by generate_consensus_values while enumerating this same vector",
+    (CORE + "consensus::transaction::Transaction::get_winning_routing_node", "Transaction.path"):
+        "work_by_hop has one entry per hop (one push, then one per hop after the first) and the empty path returned earlier",
+    (CORE + "consensus::transaction::Transaction::validate_routing_path::{closure#0}", "Transaction.path"):
+        "index comes from enumerate() over this same vector and index > 0 is tested before index - 1 is used",
+    (CORE + "routing_thread::RoutingThread::process_ghost_chain::{closure#0}", "GhostChainSync.*"):
+        "all six vectors are filled by GhostChainSync::deserialize in loops over the same count (its own missing length checks are the "
+        "known C10/C11 finding); the loop runs over prehashes.len()",
 }
 
 
@@ -124,6 +150,7 @@ def run(prog, tier, extra=None):
     R2 = res.rule("C11.pre-handshake", "peer key / challenge / peer lookups are not unwrapped without a dominating check", floor=0)
     R3 = res.rule("C11.fallible-unwrapped", "results of workspace functions that can return Err are not unwrapped in handlers", floor=0)
     R4 = res.rule("C11.decoders", "no decoder that can panic on input is reachable from the handlers", floor=15)
+    R5 = res.rule("C11.peer-indexing", "indexing into fields of peer-decoded structures is covered by a dominating length fact", floor=60)
 
     core_units = [u for u in prog.units if u.crate == "saito_core"]
     cg = CallGraph(prog, core_units)
@@ -287,6 +314,39 @@ def run(prog, tier, extra=None):
             res.add(Finding(R4, "C11.decoders|%s" % path,
                             "%s can panic on input bytes (C10) and is reachable from the peer-driven handlers" % path.replace(CORE, ""),
                             f.loc, {"call_path": steps[-8:]}))
+    # ---- R5
+    da5 = c10.DecoderAnalysis(prog)
+    da5.via = {}
+    used_exc = set()
+    for p in sorted(live):
+        b = prog.body(p)
+        if b is None or b.is_promoted or "/test/" in b.file or "::tests::" in p:
+            continue
+        da5._run(b, ())
+        counters = {}
+        for o in da5.last_all:
+            if o["kind"] not in ("slice", "bounds") or o["base"] is None:
+                continue
+            flds = [(x[2], x[3]) for x in walk(o["base"]) if x[0] == "field" and x[2].endswith(PEER_ADTS)]
+            if not flds:
+                continue
+            res.instance(R5)
+            if o["ok"]:
+                continue
+            adt, fld = flds[0]
+            short = "%s.%s" % (adt.rsplit("::", 1)[-1], fld)
+            exc = R5_EXCEPTIONS.get((p, short)) or R5_EXCEPTIONS.get((p, adt.rsplit("::", 1)[-1] + ".*"))
+            if exc:
+                used_exc.add((p, short))
+                res.sample({"rule": R5, "site": o["loc"], "op": o["desc"][:70], "exception": exc})
+                continue
+            n = counters.get(short, 0)
+            counters[short] = n + 1
+            res.add(Finding(R5, "C11.peer-indexing|%s|%s|%d" % (p, short, n),
+                            "%s indexes %s (`%s`) without a dominating length check: a peer-chosen shape of that vector panics the handler"
+                            % (p.replace(CORE, "")[-70:], short, o["desc"][:70]), o["loc"]))
+    res.extra["peer_indexing_exceptions_used"] = sorted("%s|%s" % (a.replace(CORE, ""), b) for a, b in used_exc)
+
     # a handler that waits for a lock in an inverted order never returns: lock-order findings inside handler-reachable bodies
     from ._include import include
     live_plain = {q.replace("::{closure#0}", "") for q in live}
